@@ -179,7 +179,9 @@ func cmdNpm(args []string) error {
 		lc := loadNpmUniverse(c, tb)
 		var tree *npm.VerifNode
 		npm.VerifTree = func(r *npm.VerifNode) { tree = r }
-		g, err := npm.NewResolver(lc).Resolve(ctx, resolve.VersionKey{PackageKey: resolve.PackageKey{System: resolve.NPM, Name: c.Root.Name}, VersionType: resolve.Concrete, Version: tb.Versions[c.Root.V-1]})
+		g, err := guarded(func() (*resolve.Graph, error) {
+			return npm.NewResolver(lc).Resolve(ctx, resolve.VersionKey{PackageKey: resolve.PackageKey{System: resolve.NPM, Name: c.Root.Name}, VersionType: resolve.Concrete, Version: tb.Versions[c.Root.V-1]})
+		})
 		npm.VerifTree = nil
 		if err != nil {
 			o.Err = err.Error()
